@@ -61,6 +61,7 @@ type Explorer struct {
 	MaxHeight int64
 	nextID    int
 	Steps     int
+	NPaths    int
 	Pairs     map[string]struct{} // distinct (pre-state line, action) pairs are trivially all; kept for distinct (act kind, ok) classes
 }
 
@@ -186,13 +187,17 @@ type Options struct {
 	RepsAudit int
 	MaxHeight int64
 	AllPaths  bool // execute every path completely, not only the ancestors of the expanded nodes
+	PathFile  string
+	NPaths    int
 }
 
 func Explore(w *World, out *vcommon.Writer, o Options) (*Explorer, error) {
 	root := &node{children: map[string]*node{}, isNode: true}
 	var ends []*node
 	ends = append(ends, root)
-	for _, p := range o.Paths {
+	npaths := 0
+	insert := func(p []Action) {
+		npaths++
 		cur := root
 		for i := range p {
 			normalize(&p[i])
@@ -210,6 +215,24 @@ func Explore(w *World, out *vcommon.Writer, o Options) (*Explorer, error) {
 			ends = append(ends, cur)
 		}
 	}
+	for _, p := range o.Paths {
+		insert(p)
+	}
+	if o.PathFile != "" {
+		// streamed: a path is dropped as soon as it has been merged into the trie
+		err := vcommon.ReadLines(o.PathFile, func(raw json.RawMessage) error {
+			var p []Action
+			if err := json.Unmarshal(raw, &p); err != nil {
+				return fmt.Errorf("bad path line: %v", err)
+			}
+			insert(p)
+			return nil
+		})
+		if err != nil {
+			return nil, err
+		}
+	}
+	o.NPaths = npaths
 	for i := range o.Alphabet {
 		normalize(&o.Alphabet[i])
 	}
@@ -256,7 +279,7 @@ func Explore(w *World, out *vcommon.Writer, o Options) (*Explorer, error) {
 		}
 	}
 	root.needed = true
-	e := &Explorer{W: w, Out: out, Alphabet: o.Alphabet, Reps: o.Reps, RepsAudit: o.RepsAudit, MaxHeight: o.MaxHeight, Pairs: map[string]struct{}{}}
+	e := &Explorer{NPaths: npaths, W: w, Out: out, Alphabet: o.Alphabet, Reps: o.Reps, RepsAudit: o.RepsAudit, MaxHeight: o.MaxHeight, Pairs: map[string]struct{}{}}
 	id, err := e.emit(0, Action{Act: "Init"}, TxResult{OK: true}, w.Root, nil, nil, w.genesis)
 	if err != nil {
 		return e, err
